@@ -107,6 +107,11 @@ func (c *Client) Do(req *http.Request) (resp *http.Response, err error) {
 		return resp, err
 	}
 	if respUnauthorizedNegotiate(resp) {
+		if strings.HasPrefix(req.Header.Get(HTTPHeaderAuthRequest), HTTPHeaderAuthResponseValueKey+" ") {
+			// This request carried a token already and the server still asks for one: hand its answer back
+			// instead of authenticating again and again.
+			return resp, err
+		}
 		err := SetSPNEGOHeader(c.krb5Client, req, c.spn)
 		if err != nil {
 			return resp, err
